@@ -81,7 +81,7 @@ func C03_ProofShapes() {
 	maxH := 2
 	if vTier() == "thorough" {
 		maxH = 3
-		cfg.lenVars = 3
+		cfg.lenVars = 2
 	}
 	h := vShapeState(cfg, maxH, 1, []int{1, 2})
 	if h.p.n == 0 {
